@@ -18,8 +18,8 @@ def run(ctx):
   ctx.assumptions = ["streams of 1-3 messages with lengths 8, 9, 12, 16, 64, 72, 88, 1518, 2040-2056, 40000, 65535; "
                      "streams of 130, 300 and 520 messages of 8-9 bytes (hundreds of messages in one read)",
                      "controller reads are capped at its recv(2048); the switch side is fed through IOWorker._push_receive_data"]
-  cfgs = ["MC_small2", "MC_mediumQ", "MC_bigQ", "MC_dribble", "MC_huge", "MC_hugeC", "MC_many", "MC_manyC"] if quick else \
-         ["MC_small", "MC_medium", "MC_big", "MC_big4", "MC_dribble", "MC_huge", "MC_hugeC", "MC_many", "MC_manyC"]
+  cfgs = ["MC_small2", "MC_mediumQ", "MC_bigQ", "MC_dribble", "MC_huge", "MC_hugeC", "MC_many", "MC_manyC", "MC_helloC"] if quick else \
+         ["MC_small", "MC_medium", "MC_big", "MC_big4", "MC_dribble", "MC_huge", "MC_hugeC", "MC_many", "MC_manyC", "MC_helloC"]
   first = None
   results = tlc.run_many([dict(spec_dir="framing", module="MCFraming", cfg=c + ".cfg", tag="C02", timeout=2400,
                                workers=4) for c in cfgs], parallel=4)
@@ -36,7 +36,7 @@ def run(ctx):
       raise tlc.TLCError("no behaviours exported by " + c)
     # sides: controller reader (reads capped at 2048), switch reader fed directly, and the switch reader
     # behind the real I/O loop with a worker that is still in its connecting state
-    sides = ("ctl",) if c in ("MC_hugeC", "MC_manyC") else ("sw", "swloop") if c in ("MC_huge", "MC_many") \
+    sides = ("ctl",) if c in ("MC_hugeC", "MC_manyC", "MC_helloC") else ("sw", "swloop") if c in ("MC_huge", "MC_many") \
         else ("ctl", "sw", "swloop")
     for side in sides:
       bb = behs
